@@ -591,6 +591,26 @@ func (in *Interp) errorsAs(err, target Val, site ssa.CallInstruction) bool {
 				ptr.C.Set(iv.V)
 				return true
 			}
+		} else if eo, ok := iv.V.(*ErrObj); ok && eo.Kind == "ext" && eo.Wrapped == nil && foreignErrType(want) {
+			// an error made outside the module (a failing body read, a
+			// decoder's error) may be of any foreign type the code asks for
+			if in.truth(LazyBool{"errors.As(" + eo.Key + "," + types.TypeString(want, nil) + ")"}) {
+				// its exported fields are plain symbols
+				prev := in.OpenExternal
+				wn := namedOf(want)
+				if pw, isP := want.(*types.Pointer); isP {
+					wn = namedOf(pw.Elem())
+				}
+				in.OpenExternal = func(n *types.Named) bool { return n == wn || (prev != nil && prev(n)) }
+				v := in.symOf(want, eo.Key+".("+types.TypeString(want, nil)+")")
+				if pv, isPtr := v.(Ptr); isPtr {
+					pv.C.Get() // the pointee is made lazily: make it now
+				}
+				in.OpenExternal = prev
+				ptr.C.Set(v)
+				return true
+			}
+			return false
 		} else if o, ok := iv.V.(Opaque); ok && !strings.HasPrefix(o.Key, "global:") {
 			if in.truth(LazyBool{"errors.As(" + o.Key + "," + types.TypeString(want, nil) + ")"}) {
 				ptr.C.Set(in.symOf(want, o.Key+".("+types.TypeString(want, nil)+")"))
@@ -605,6 +625,23 @@ func (in *Interp) errorsAs(err, target Val, site ssa.CallInstruction) bool {
 		err = w
 	}
 	return false
+}
+
+// foreignErrType: a concrete error type of another module that is not one
+// of the operating-system error structs (those are modelled exactly).
+func foreignErrType(t types.Type) bool {
+	if p, ok := t.(*types.Pointer); ok {
+		t = p.Elem()
+	}
+	n := namedOf(t)
+	if n == nil || n.Obj().Pkg() == nil || types.IsInterface(t) {
+		return false
+	}
+	switch n.Obj().Pkg().Path() + "." + n.Obj().Name() {
+	case "io/fs.PathError", "os.LinkError", "os.SyscallError", "syscall.Errno":
+		return false
+	}
+	return !inModuleType(n)
 }
 
 // osIs models os.IsExist / os.IsNotExist / os.IsPermission: they look only
